@@ -89,7 +89,9 @@ def jobs(tier, seed):
         out.append(_mk('P2', m, [s], el, i))
       for pr in (PAIRS6 if tier == 'quick' else pairs_all):
         if tier == 'quick' and i not in (1, 2):
-          continue   # default eligibility x pairs on 4 geos: thorough only
+          continue
+        if i == 0 and ('budget' in pr or set(pr) == {'share', 'vol'}):
+          continue   # default eligibility x budget pairs on 4 geos: hours
         out.append(_mk('P2', m, pr, el, i, max_s=2500))
     # symbolic constraint next to concrete values of others
     for ci, conc in enumerate(CONC_VARIANTS[1:]):
